@@ -91,14 +91,21 @@ def check_occurrence_tables(ctx):
         raise AnalysisError(f"{ch.fq}: the count dispatch of a required choice leaf vanished (idiom not understood)")
     head = heads[0]
     cnt = _count_texts(head.test)[0]
+    # the flag variable: the local name assigned True somewhere below the dispatch head
+    flag = None
+    for n in ast.walk(head):
+        if isinstance(n, ast.Assign) and isinstance(n.targets[0], ast.Name) and isinstance(n.value, ast.Constant) and n.value.value is True:
+            flag = n.targets[0].id
+    if flag is None:
+        raise AnalysisError(f"{ch.fq}: the count dispatch sets no flag (idiom not understood)")
     for count, order, want in ((0, {(cnt, '0'): '=', (cnt, '1'): '<'}, None), (1, {(cnt, '0'): '>', (cnt, '1'): '='}, True)):
         r, eff, env = _run([head], ch.fq, order=order)
-        chosen = env.get('element_chosen')
+        chosen = env.get(flag)
         got = None if chosen is None else (chosen[1] if chosen[0] == 'const' else chosen)
         res.check(got == want and r == ('fall',), 'R-ORD', ch.fq,
                   f"required choice leaf holding {count} element(s) -> {'chosen' if want else 'not chosen'}",
                   fail_detail=f"element_chosen={got}, {abseval.show(r)}", key=f"R-ORD|choice-count|{count}", line=head.lineno)
     # the flag is what sets the choice fulfilled
-    tail = [n for n in ch.node.body if isinstance(n, ast.If) and unparse(n.test) == 'element_chosen']
+    tail = [n for n in ch.node.body if isinstance(n, ast.If) and unparse(n.test) == flag]
     ok = bool(tail) and any(isinstance(s, ast.Assign) and unparse(s.targets[0]).endswith('.requirements_fulfilled') and unparse(s.value) == 'True' for s in tail[0].body)
     res.check(ok, 'R-ORD', ch.fq, "a chosen element marks the choice as fulfilled", key='R-ORD|choice-count|fulfilled')
